@@ -358,15 +358,19 @@ def checkStream (fs : List Family) (parser src : String) (tu skip st : Bool) (ou
   else if proj (fun x => { x with st := 0 }) g != proj (fun x => { x with st := 0 }) w then
     if proj (fun x => { x with st := 0 }) g == proj (fun x => { x with st := 0, ex := escEx x.ex }) w then
       some s!"violation roundtrip kind=om-exemplar-escaped {ctx}"
-    else if proj (fun x => { x with st := 0, ex := x.ex.map fun e => { e with ts := none } }) g ==
-            proj (fun x => { x with st := 0, ex := x.ex.map fun e => { e with ts := none } }) w &&
-            (g.zip w).all (fun p => match p.1.ex, p.2.ex with
-              | some a, some b => (match a.ts, b.ts with
-                | some x, some y => (x - y).natAbs ≤ 1
-                | none, none => true
-                | _, _ => false)
-              | _, _ => true) then
+    else
+    let noTs (esc : Bool) (l : List XS) : List XS :=
+      l.map fun x => { x with st := 0, ex := (if esc then escEx x.ex else x.ex).map fun e => { e with ts := none } }
+    let tsClose : Bool := (g.zip w).all (fun p => match p.1.ex, p.2.ex with
+      | some a, some b => (match a.ts, b.ts with
+        | some x, some y => decide ((x - y).natAbs ≤ 1)
+        | none, none => true
+        | _, _ => false)
+      | _, _ => true)
+    if noTs false g == noTs false w && tsClose then
       some s!"violation roundtrip kind=exemplar-timestamp-precision {ctx}"
+    else if noTs false g == noTs true w && tsClose then
+      some s!"violation roundtrip kind=om-exemplar-escaped {ctx} also=exemplar-timestamp-precision"
     else some s!"violation roundtrip kind=exemplar {ctx}"
   else if st && g != w then
     let maxd := (g.zip w).foldl (fun acc p => max acc (p.1.st - p.2.st).natAbs) 0
